@@ -972,7 +972,11 @@ class Parser:
         if self.accept('number'):
             return self.create_node(NumberNode, t)
         if self.accept_any(ALL_STRINGS):
-            return self.create_node(StringNode, t)
+            try:
+                return self.create_node(StringNode, t)
+            except UnicodeDecodeError as e:
+                # \N{...} with an unknown character name, \U beyond the Unicode range
+                raise ParseException(f'Invalid escape sequence in string: {e.reason}.', self.lexer.getline(t.line_start), t.lineno, t.colno)
         return EmptyNode(self.current.lineno, self.current.colno, self.current.filename)
 
     def key_values(self) -> ArgumentNode:
